@@ -1,5 +1,6 @@
 """static texts for MANIFEST.json"""
 HOOK_COMMITS = ["7bb2255", "7785453"]
+FIX_COMMITS = ["9ca3f5f", "6ae5073", "253787a", "daf940f", "d18c96a", "45ec270"]
 
 KANI = "kani-contracts"
 META = {
@@ -7,8 +8,8 @@ META = {
   "engine": "verus-weave + kani-contracts",
   "design_ref": "DESIGN.md §4.1-4.3, §5 C14, §12.2",
   "technique": "Verus proof of extracted real functions against a reference-semantics post-condition; Kani cross-checks on the unextracted code",
-  "level_text": "Deductive proof (Verus/Z3) for every chain length, every application order and every word count: eval_binary's result equals the nearest-live-neighbour reference reduction, both NumberTracker impls satisfy the trait's bit-view contract, and both tracker-selection sites (eval_numbers; DeepEx::eval_relaxed as a statement slice) meet eval_binary's pre-condition. The verified text is cut from /repo on every run.",
-  "level_note": "Trusted: Verus+Z3; assume_specification for rotate_right/leading_ones/trailing_ones (re-checked for all usize by a complete Kani harness) and mem::take; operators are deterministic (A1); SmallVec~Vec; one external_body delegation (Verus quirk) with its implication lemma; flatex_to_deepex's inlined copy of the loop is not covered.",
+  "level_text": "Deductive proof (Verus/Z3) for every chain length, every application order and every word count: eval_binary's result equals the nearest-live-neighbour reference reduction, both NumberTracker impls satisfy the trait's bit-view contract, both tracker-selection sites (eval_numbers; DeepEx::eval_relaxed as a statement slice) meet eval_binary's pre-condition, and the inlined copy of the index computation in flatex_to_deepex (statement slice) keeps the same invariant and never violates its own assert!. The verified text is cut from /repo on every run.",
+  "level_note": "Trusted: Verus+Z3; assume_specification for rotate_right/leading_ones/trailing_ones (re-checked for all usize by a complete Kani harness) and mem::take; operators are deterministic (A1); SmallVec~Vec; one external_body delegation (Verus quirk) with its implication lemma; statement slices drop the surrounding function (generated frame); that the order functions return a permutation is decided only boundedly (C01).",
  },
  "C16": {
   "engine": KANI, "design_ref": "DESIGN.md §4.7, §12.4-12.6",
@@ -19,8 +20,8 @@ META = {
  "C17": {
   "engine": KANI, "design_ref": "DESIGN.md §4.7, §12.4-12.6",
   "technique": "Kani: contract `returns` (no panic / overflow / failed unwrap / out-of-bounds) on every extracted entry of the value operator table, full scalar operand domain",
-  "level_text": "One generated loop-free harness per table entry proves, for all 25 ordered kind pairs and all 2^32 / 2^64 payload values, that the entry returns (rustc's overflow, shift, bounds and unwrap panics are in the program and checked by CBMC). Thorough tier adds arrays of length 0..=3.",
-  "level_note": "std::fmt::format stubbed (error text not verified); --no-overflow-checks drops only CBMC's own float-NaN instrumentation; float primitives uninterpreted (they cannot panic); entries verified as extracted text (G1/G3/G4), not through the run-time fn pointers; Val<i32,f64> only.",
+  "level_text": "One generated loop-free harness per table entry proves, for all 25 ordered kind pairs and all 2^32 / 2^64 payload values, that the entry returns (rustc's overflow, shift, bounds and unwrap panics are in the program and checked by CBMC). A second instantiation Val<i64, f32> is proved for the 12 entries that convert between number types (quick) / for all entries (thorough). Thorough tier adds arrays of length 0..=3.",
+  "level_note": "std::fmt::format stubbed (error text not verified); --no-overflow-checks drops only CBMC's own float-NaN instrumentation; float primitives uninterpreted (they cannot panic); entries verified as extracted text (G1/G3/G4), not through the run-time fn pointers; instantiations Val<i32,f64> and Val<i64,f32>.",
  },
  "C19": {
   "engine": KANI, "design_ref": "DESIGN.md §4.8, §12.4-12.6",
@@ -61,8 +62,8 @@ META = {
  "C04": {
   "engine": KANI, "design_ref": "DESIGN.md §5 C04, §12.6",
   "technique": "Kani: contracts on FlatEx::eval / eval_relaxed arity guards and index binding",
-  "level_text": "Partial, bounded: one-node FlatEx over two variables, symbolic variable index, slices of symbolic length 0..=4: eval errs iff length != 2, eval_relaxed iff length < 2, an Ok result is the value at the node's index.",
-  "level_note": "Name collection/order/lookup (find_parsed_vars, find_var_index), brace tokenisation, derived expressions, eval_vec/eval_iter and the deep form are not covered.",
+  "level_text": "Partial, bounded: one-node FlatEx over two variables, symbolic variable index, slices of symbolic length 0..=4: eval errs iff length != 2, eval_relaxed iff length < 2, an Ok result is the value at the node's index; eval_vec / eval_iter reject 1 and 3 values (quick) and bind correctly for 2 values (thorough).",
+  "level_note": "Name collection/order/lookup (find_parsed_vars, find_var_index), brace tokenisation, derived expressions and the deep form are not covered.",
  },
 }
 
